@@ -29,9 +29,25 @@ fn parse_op(s: &str) -> Op {
     }
 }
 
+/// The history on a cursor built by `new()`, and again on cursors built by `with_capacity`: the
+/// capacity must not be observable.
 fn run_ac<T: Alignment>(ops: &[Op]) -> (String, bool) {
-    let mut c = AlignedCursor::<T>::new();
+    let (a, al) = run_ac_from::<T>(AlignedCursor::<T>::new(), ops);
+    for cap in [0usize, 1, 37, 4096] {
+        let (b, al2) = run_ac_from::<T>(AlignedCursor::<T>::with_capacity(cap), ops);
+        if b != a || al2 != al {
+            return (format!("WITH-CAPACITY-{}-DIFFERS;{}", cap, b), al && al2);
+        }
+    }
+    (a, al)
+}
+
+fn run_ac_from<T: Alignment>(mut c: AlignedCursor<T>, ops: &[Op]) -> (String, bool) {
     let mut out = vec![];
+    if c.len() != 0 || !c.is_empty() || c.position() != 0 {
+        // (the storage is not touched: with a wrong length as_bytes would read outside it)
+        return (format!("FRESH-CURSOR-NOT-EMPTY len={} pos={}", c.len(), c.position()), true);
+    }
     let mut aligned = true;
     let mut dead = false;
     for op in ops {
@@ -71,9 +87,14 @@ fn run_ac<T: Alignment>(ops: &[Op]) -> (String, bool) {
             Ok(s) => {
                 let pos = c.position();
                 let len = c.len();
+                let empty_ok = c.is_empty() == (len == 0);
+                let mutable_same = c.as_bytes_mut().to_vec() == c.as_bytes().to_vec();
                 let bytes = c.as_bytes();
                 if len > 0 && (bytes.as_ptr() as usize) % std::mem::align_of::<T>() != 0 {
                     aligned = false;
+                }
+                if !empty_ok || !mutable_same || bytes.len() != len {
+                    out.push("ACCESSORS-DISAGREE".to_string());
                 }
                 out.push(format!("{}|{:x}|{:x}|{}", s, pos, len, hex(bytes)));
             }
@@ -81,6 +102,15 @@ fn run_ac<T: Alignment>(ops: &[Op]) -> (String, bool) {
                 out.push("PANIC".to_string());
                 dead = true;
             }
+        }
+    }
+    if !dead {
+        // into_parts: the storage (whole units) and the length in bytes
+        let expect: Vec<u8> = c.as_bytes().to_vec();
+        let (v, len) = c.into_parts();
+        let raw = unsafe { std::slice::from_raw_parts(v.as_ptr() as *const u8, v.len() * std::mem::size_of::<T>()) };
+        if len != expect.len() || raw.len() < len || raw[..len] != expect[..] {
+            out.push("INTO-PARTS-DIFFERS".to_string());
         }
     }
     (out.join(";"), aligned)
